@@ -341,7 +341,11 @@ def sort_loop_rule(s):
             base = rnd.normal(size=(d, d)) + 1j * rnd.normal(size=(d, d))
             targ = rnd.normal(size=(d, d)) + 1j * rnd.normal(size=(d, d))
             items = list(range(d))
-            want = es.evec_sort(list(items), [list(x) for x in targ], [list(x) for x in base])
+            try:          # the same explicit arguments the pieces get (what the DEFAULTS are is decided by the bounded run, which calls the function as a user does)
+                want = es.evec_sort(list(items), [list(x) for x in targ], [list(x) for x in base], filter=None, threshold=None)
+            except Exception as e:  # noqa: BLE001
+                s.notes["looprule_selfcheck"] = "not comparable on this source: evec_sort raises %r on a random input" % (e,)
+                return
             p = looprule.Pieces(es.evec_sort, 0)
             o = p.run(p.prefix, {"target_arr": list(items), "target_evecs": [list(x) for x in targ], "base_evecs": [list(x) for x in base], "filter": None, "threshold": None})
             env = o.env
